@@ -21,12 +21,17 @@ Proof. exact hints_only. Qed.
 Theorem C15_inv_clean : forall R, inv R = true -> errors R = [].
 Proof. exact inv_clean. Qed.
 
-Theorem C15_oracle_sound : forall c,
-  check_C15 c = true <-> (ok_trace empty (c_ops c) = true -> c_check_failed c = false).
+Theorem C15_oracle_sound : forall c, check_C15 c = true <-> c_check_failed c = false.
 Proof. exact check_C15_iff. Qed.
+
+(* the model explains the verdict: a recorded history that follows the discipline is predicted clean *)
+Theorem C15_model_predicts_clean : forall c,
+  ok_trace empty (c_ops c) = true -> errors (run empty (c_ops c)) = [].
+Proof. exact model_predicts_clean. Qed.
 
 Print Assumptions C15_inv_step.
 Print Assumptions C15_produced_is_clean.
 Print Assumptions C15_hints_only.
 Print Assumptions C15_inv_clean.
 Print Assumptions C15_oracle_sound.
+Print Assumptions C15_model_predicts_clean.
